@@ -61,7 +61,7 @@ func checkPlayableTable(body []*PathSum, accept func(ps *PathSum) bool) (bool, [
 	if len(missing) > 0 {
 		bad = append(bad, "the predicate does not look at "+strings.Join(missing, ", "))
 	}
-	enumGrid(ints, 0, 2, bools, nil, func(a Asg) bool {
+	enumGrid(ints, -1, 3, bools, nil, func(a Asg) bool {
 		row, err := selectPath(body, a)
 		if err != "" {
 			bad = append(bad, "table self-check: "+err)
